@@ -23,14 +23,23 @@ type env struct {
 	// soft fault: every command is answered with an error reply (what mr.SetError does; done by
 	// our own pre-hook because the hook also counts script commands)
 	faulty atomic.Bool
-	fence       // detector of commands re-sent by the go-redis client, see fence.go
-	wide   bool // schedule executions: one fence window per execution (opened by the body)
+	// one-shot fault: exactly the next oneShot top-level commands are answered with an error reply
+	// (a single failing command / a very short flap); commands issued from inside a Lua script
+	// are not counted — the script as a whole is the command that fails
+	oneShot atomic.Int32
+	fence        // detector of commands re-sent by the go-redis client, see fence.go
+	wide    bool // schedule executions: one fence window per execution (opened by the body)
 }
 
 func (e *env) hook() {
 	e.mr.Server().SetPreHook(func(c *server.Peer, cmd string, args ...string) bool {
 		e.observe(c, cmd, args)
 		if e.faulty.Load() {
+			c.WriteError(faultMsg)
+			return true
+		}
+		if !nestedPeer(c) && e.oneShot.Load() > 0 {
+			e.oneShot.Add(-1)
 			c.WriteError(faultMsg)
 			return true
 		}
@@ -79,11 +88,15 @@ func getEnv() *env {
 func (e *env) reset() {
 	e.hardFault(false)
 	e.faulty.Store(false)
+	e.oneShot.Store(0)
 	e.mr.FlushAll()
 	e.mr.SetTime(vsched.Epoch)
 }
 
 func (e *env) fault(on bool) { e.faulty.Store(on) }
+
+// failNext arms a one-shot fault: exactly the next k store commands fail (k = 0 disarms).
+func (e *env) failNext(k int) { e.oneShot.Store(int32(k)) }
 
 // hardFault closes the server socket (connection refused / EOF instead of an error reply) and
 // restarts it on the same port with its data preserved. go-redis retries such errors with real
